@@ -321,6 +321,9 @@ def main(tier):
         "trains, padded variants, crafted transport parameters announced by a real peer; after the inputs the "
         "victim's timer/transmit/event calls are driven until ConnectionTerminated. Non-trivial = the input was "
         "deliverable (attacker had keys / bytes non-empty); distinct by (role,state,epoch,input) hash.")
+    # TLS message layer: only tls.Alert may leave Context.handle_message
+    from checks import c05_tls
+    c05_tls.run(ctx, tier)
     return ctx.finish()
 
 
